@@ -5,6 +5,9 @@
    V <repo|tag|digest> <hex>   one component validator
    A <hexalg> <true|false>     configuration: is the hash implementation linked into the harness binary
    F <hexreg> <hexrepo> <hexref>   Reference.String()
+   Q <referrers|mount> <plain> <hexreg> <hexrepo> <hexref> <hexarg>   query-carrying URL builders
+   D <op> <plain> <hexreg> <hexrepo> <hexdigest> <hexarg> <hexpagesize>   descriptor-driven operations
+   G <hexreg>                  Reference.ValidateRegistry (Model/NetURL.v)
    O <op> <plain> <hexreg> <hexrepo> <hexinput> <hexdescdigest>   requests of a reference-taking operation *)
 let show_verdict v =
   match v with
@@ -25,6 +28,61 @@ let () =
       if v = "true" then unavailable := List.filter (fun x -> x <> a) !unavailable
       else unavailable := a :: !unavailable;
       Printf.printf "%s AVAIL %s\n" id v
+    | [id; "Q"; kind; plain; hr; hp; hf; ha] ->
+      let unh h = if h = "-" then [] else str_of_hex h in
+      let r = { r_registry = unh hr; r_repository = unh hp; r_reference = unh hf } in
+      let p = (plain = "1") in
+      let u = match kind with
+        | "referrers" -> gen_url_referrers_at p r (unh ha)
+        | "mount" -> gen_url_mount p r (unh hf) (unh ha)
+        | _ -> failwith "qkind" in
+      let ho o = match o with None -> "none" | Some s -> "some:" ^ hex_of_str s in
+      (match url_split u with
+       | Some q -> Printf.printf "%s URL %s SPLIT %s %s %s %s %s\n" id (hex_of_str u) (hex_of_str q.u_scheme) (hex_of_str q.u_authority) (hex_of_str q.u_path) (ho q.u_query) (ho q.u_fragment)
+       | None -> Printf.printf "%s URL %s NOSPLIT\n" id (hex_of_str u))
+    | [id; "D"; op; plain; hr; hp; hd; ha; hn] ->
+      let unh h = if h = "-" then [] else str_of_hex h in
+      let o = match op with
+        | "dmfetch" -> DMFetch | "dmdelete" -> DMDelete | "dbfetch" -> DBFetch | "dbdelete" -> DBDelete
+        | "dreferrers" -> DReferrers | "dmount" -> DMount | "dbpush" -> DBPush | "dtags" -> DTags
+        | _ -> failwith "descop" in
+      let base = { r_registry = unh hr; r_repository = unh hp; r_reference = [] } in
+      let l = desc_op_requests o (plain = "1") base (unh hd) (unh ha) (unh hn) in
+      Printf.printf "%s REQS%s\n" id
+        (String.concat "" (List.map (fun (m, u) -> " " ^ hex_of_str m ^ ":" ^ hex_of_str u) l))
+    | [id; "N"; "repo"; h; _] ->
+      let s = if h = "-" then [] else str_of_hex h in
+      (match new_repository avail go_vr s with
+       | Some r -> Printf.printf "%s %s\n" id (show_verdict (VOk r))
+       | None -> Printf.printf "%s ERR\n" id)
+    | [id; "N"; "reg"; hn; hs] ->
+      let unh h = if h = "-" then [] else str_of_hex h in
+      (match new_registry go_vr (unh hn) with
+       | None -> Printf.printf "%s ERR\n" id
+       | Some reg ->
+         (match registry_repository reg (unh hs) with
+          | Some r -> Printf.printf "%s %s\n" id (show_verdict (VOk r))
+          | None -> Printf.printf "%s REGOK\n" id))
+    | [id; "E"; op; plain; hr; hl; hn] ->
+      let unh h = if h = "-" then [] else str_of_hex h in
+      let o = match op with "rping" -> RPing | "rcatalog" -> RCatalog | _ -> failwith "regop" in
+      let l = reg_op_requests o (plain = "1") (unh hr) (unh hl) (unh hn) in
+      Printf.printf "%s REQS%s\n" id
+        (String.concat "" (List.map (fun (m, u) -> " " ^ hex_of_str m ^ ":" ^ hex_of_str u) l))
+    | id :: "T" :: plain :: hr :: hp :: hs :: hserved :: hdsts ->
+      let unh h = if h = "-" then [] else str_of_hex h in
+      let l = oras_tag_requests avail go_vr (plain = "1") (unh hr) (unh hp) (unh hs) (List.map unh hdsts) (unh hserved) in
+      Printf.printf "%s REQS%s\n" id
+        (String.concat "" (List.map (fun (m, u) -> " " ^ hex_of_str m ^ ":" ^ hex_of_str u) l))
+    | [id; "G"; h] ->
+      let reg = if h = "-" then [] else str_of_hex h in
+      (match go_registry_verdict reg with
+       | Some v -> Printf.printf "%s REG %s\n" id (if v then "true" else "false")
+       | None -> Printf.printf "%s UNJUDGED\n" id)
+    | [id; "W"; hr; hp; hf] ->
+      let unh h = if h = "-" then [] else str_of_hex h in
+      let r = { r_registry = unh hr; r_repository = unh hp; r_reference = unh hf } in
+      Printf.printf "%s VALID %s\n" id (if validate avail go_vr r then "true" else "false")
     | [id; "F"; hr; hp; hf] ->
       let unh h = if h = "-" then [] else str_of_hex h in
       let r = { r_registry = unh hr; r_repository = unh hp; r_reference = unh hf } in
@@ -40,14 +98,14 @@ let () =
       let r = { r_registry = str_of_hex hr; r_repository = str_of_hex hp; r_reference = str_of_hex hf } in
       let p = (plain = "1") in
       let u = match kind with
-        | "manifest" -> url_manifest p r
-        | "blob" -> url_blob p r
-        | "referrers" -> url_referrers p r
-        | "taglist" -> url_taglist p r
-        | "upload" -> url_upload p r
-        | "base" -> url_base p r
-        | "catalog" -> url_catalog p r
-        | "repobase" -> url_repo_base p r
+        | "manifest" -> gen_url_manifest p r
+        | "blob" -> gen_url_blob p r
+        | "referrers" -> gen_url_referrers p r
+        | "taglist" -> gen_url_taglist p r
+        | "upload" -> gen_url_upload p r
+        | "base" -> gen_url_base p r
+        | "catalog" -> gen_url_catalog p r
+        | "repobase" -> gen_url_repo_base p r
         | _ -> failwith "kind" in
       let hx s = match s with [] -> "-" | _ -> hex_of_str s in
       let ho o = match o with None -> "none" | Some s -> "some:" ^ hx s in
